@@ -470,12 +470,26 @@ def flat_directory_collisions(prog, res):
         f = prog.fn(name)
         per = f.call_roots(stage)
         res.check(len(per) >= 2, R, name + ":stages", f.loc, "%d per-source stage calls" % len(per), "%s has %d calls of %s" % (name, len(per), stage))
-        hit = cond_edges(f, lambda c: is_call(c, "FIO_checkFilenameCollisions"), "true")
-        clear = cond_edges(f, lambda c: is_call(c, "FIO_checkFilenameCollisions"), "false")
+        def verdict(c):
+            """the collision verdict itself, or a local that holds it (`v = cond ? FIO_checkFilenameCollisions(..) : 0`)"""
+            if is_call(c, "FIO_checkFilenameCollisions"):
+                return True
+            d = f.single_def(c.get("n")) if c.get("k") == "ref" and c.get("rk") in ("l", "sl") else None
+            return d is not None and any(is_call(y, "FIO_checkFilenameCollisions") for y in f.walk_deep(d))
+        hit = guards.truthy_edges(f, verdict, truth=True)
+        clear = guards.truthy_edges(f, verdict, truth=False)
         before = [e for e in clear if any(t in f.flow([(e[1], 0)]) for t in per)]
         gated = [e for e in hit if not any(t in f.flow([(e[1], 0)]) for t in per)]
         rm_side = flag_edges(f, "removeSrcFile", "true")
         on_rm = bool(hit) and all(f.must_pass(via_edges=rm_side, targets=[(e[0], len(f.blocks[e[0]]["el"]))]) for e in hit) if rm_side else False
+        if not on_rm and hit:
+            # the verdict is held in a local computed as `rm && .. ? collisions : 0`: the rm test guards the call inside the definition
+            for n, ds in f.local_defs().items():
+                for d in ds:
+                    dd = strip_casts(f.resolve_x(d)) if d is not None else None
+                    if dd is not None and dd.get("k") == "cond" and any(is_call(y, "FIO_checkFilenameCollisions") for y in f.walk_resolved(dd.get("t") or {})) \
+                            and any(y.get("k") == "mem" and y.get("f") == "removeSrcFile" for y in f.walk_resolved(dd.get("c") or {})):
+                        on_rm = True
         res.check(bool(before) and len(gated) == len(hit) and bool(hit), R, name + ":verdict-before-first-source", f.loc,
                   "the collision verdict is tested before the per-source stage and its positive edge never reaches it",
                   "%s does not refuse colliding names of a flat output directory before it processes them: `zstd --rm --output-dir-flat out d1/x d2/x` "
